@@ -254,6 +254,15 @@ func (s *Lexer) readNumber() (Token, error) {
 		}
 	}
 
+	// Numbers cannot be followed by "." or a NameStart character (spec: IntValue and
+	// FloatValue carry a lookahead restriction), so that "123abc" or "1.5.2" is an error
+	// rather than two adjacent tokens.
+	if s.end < len(s.Input) {
+		if next := s.Input[s.end]; next == '.' || next == '_' || (next >= 'a' && next <= 'z') || (next >= 'A' && next <= 'Z') {
+			return s.makeError("Invalid number, expected digit but got: %s.", s.describeNext())
+		}
+	}
+
 	if float {
 		return s.makeToken(Float)
 	}
